@@ -177,6 +177,18 @@ def check_C03(res, tier, seed, replay):
                            'one region at a time; evaluations = entry-point executions; distinct_nontrivial = distinct observable behaviours (Call;Emit*;Return) validated by TLC')
         with open(tr1) as f:
             res.sample([json.loads(next(f)) for _ in range(3)])
+        # many mid-size graphs with wide weight ranges (unique optima, several signed edges per phase) under the coarse
+        # schedules: a body that is only right for single-index sub-ranges (state carried from one index of a sub-range to
+        # the next) shows up when one task gets a whole range, and only if the phase's lightest odd cycle needs it
+        mid = [(g, 1) for g in gens.random_graphs(rng, 700 if tier == 'quick' else 8000, 8, 12, 20, [list(range(1, 50)), list(range(1, 1000))])]
+        ml = [vlib.graph_line(500000 + i, g['n'], g['edges'], den) for i, (g, den) in enumerate(mid)]
+        trm = vlib.parallel_record(exe, ml, wd, 'tbb_mid', extra=['--random', '2', '--max-regions', '0', '--seed', str(seed), '--algos', 'signed_tbb'], timeout=3000)
+        stm = strip_stats(trm)
+        vm = vlib.validate_trace('Trace_Mcb', 'Trace_Mcb.cfg', trm)
+        res.add_validation(vm, vlib.count_events(trm).get('Call', 0))
+        judge(res, vm, 'Trace_Mcb')
+        res.cov['mid_size_stage'] = {'graphs': len(mid), 'executions': sum(s['executions'] for s in stm), 'distinct_behaviours_validated': vlib.count_events(trm).get('Call', 0),
+                                     'what': 'signed_tbb on random graphs n 8..12, m <= 20, weights 1..49 / 1..999 under unsplit, the degenerate families and 2 random schedules'}
         # real oneTBB: true interleavings on graphs large enough for ranges to split
         exe2 = p_mcb.mcb_harness()
         big = []
